@@ -44,11 +44,10 @@ META = {
         "small scope: types outside the pool and nesting beyond the tier's wrappers are not explored",
     ],
     "bound": {
-        "quick": "36x36 ordered pairs x wrapper pairs {bare, List/List, Optional/Optional} x 3 variants (+4 policy variants "
+        "quick": "36x36 ordered pairs x the 9 wrapper pairs of {bare, List[.], Optional[.]}^2 x 3 variants (+4 policy variants "
                  "where the destination mentions the model with an optional field) + missing-link part",
-        "thorough": "36x36 ordered pairs x 16 wrapper pairs (bare, List, Optional, Dict[str,.], nested model, List[List], "
-                    "List[Optional], Optional[List] on both sides + the 6 mixed pairs of {bare, List, Optional} + "
-                    "Dict/List mixed 2) x the same variants + missing-link part",
+        "thorough": "36x36 ordered pairs x the 64 wrapper pairs of {bare, List[.], Optional[.], Dict[str,.], nested model, "
+                    "List[List[.]], List[Optional[.]], Optional[List[.]]}^2 x the same variants + missing-link part",
     },
 }
 
@@ -96,8 +95,8 @@ L = lambda t: ("List", t)  # noqa: E731
 
 POOL = [
     INT, BOOL, STR, FLOAT,
-    L(INT), L(STR), L(BOOL), ("Set", INT), ("TupleVar", INT), ("Tuple", INT, STR),
-    ("Dict", STR, INT), ("Dict", STR, STR),
+    L(INT), L(STR), L(BOOL), ("Set", INT), ("FrozenSet", INT), ("TupleVar", INT), ("Tuple", INT, STR),
+    ("Dict", STR, INT), ("Dict", STR, STR), ("Dict", STR, BOOL),
     opt(INT), opt(STR), opt(L(INT)), opt(L(STR)),
     union(INT, STR), union(INT, STR, NONE), union(L(STR), INT), union(L(INT), INT),
     ANY, OBJECT, tM, tM2, tSub, ("GModel", "G", INT), ("GModel", "G", STR),
@@ -221,13 +220,10 @@ def wrap(w, ts, side):
     raise ValueError(w)
 
 
-WRAPS_QUICK = [("bare", "bare"), ("List", "List"), ("Optional", "Optional")]
-WRAPS_THOROUGH = WRAPS_QUICK + [
-    ("Dict", "Dict"), ("Model", "Model"), ("ListList", "ListList"), ("ListOptional", "ListOptional"),
-    ("OptionalList", "OptionalList"),
-    ("bare", "List"), ("bare", "Optional"), ("List", "bare"), ("List", "Optional"), ("Optional", "bare"),
-    ("Optional", "List"), ("Dict", "List"), ("List", "Dict"),
-]
+_W1 = ["bare", "List", "Optional"]
+_W2 = [*_W1, "Dict", "Model", "ListList", "ListOptional", "OptionalList"]
+WRAPS_QUICK = [(a, b) for a in _W1 for b in _W1]
+WRAPS_THOROUGH = WRAPS_QUICK + [(a, b) for a in _W2 for b in _W2 if (a, b) not in WRAPS_QUICK]
 
 # ------------------------------------------------------------------------------------------------------------
 # variants: (name, destination field has default, reference recipe)
@@ -316,24 +312,44 @@ def create(src_cls, dst_cls, recipe):
         return ("error", type(e).__name__, str(e)[:200])
 
 
+def _origin(ts):
+    """the generic a parametrized spec is built from (None for everything that is not parametrized)"""
+    if ts[0] in ("Tuple", "TupleVar"):
+        return "tuple"
+    if ts[0] in R.ITER_IMPL or ts[0] in R.DICT_IMPL:
+        return ts[0]
+    if ts[0] == "GModel":
+        return ("GModel", ts[1])
+    return None
+
+
 def pair_kind(s, d):
+    """names the coercion situation of a pair (reference-side classification only): one root cause, one name"""
+    if d[0] == "Union" and s[0] != "Union" and _origin(s) is not None:
+        if not any(R.same(c, s) for c in d[1:]) and any(_origin(c) == _origin(s) for c in d[1:]):
+            return "parametrized source -> union holding the same generic with other arguments"
+    if R.is_optional(s) and R.is_optional(d) and max(len(s), len(d)) > 3:  # noqa: PLR2004
+        return "Optional -> Optional where a side has several non-None cases"
     return f"{R.kind_of(s)}->{R.kind_of(d)}"
 
 
-def blame(env, s, d):
-    """descend to the innermost position where the bare relation is definite and the structure above is plain element-wise
-    wrapping on both sides, so that one root cause gets one signature whatever it is nested in"""
+def blame_chain(s, d):
+    """the pair itself followed by the pairs found by descending through plain element-wise structure present on both
+    sides (List/List, Dict/Dict with equal keys, wrapper model/wrapper model, Optional/Optional); used to give one
+    root cause one signature whatever it is nested in"""
+    chain = [(s, d)]
     while True:
-        if s[0] == d[0] and s[0] in ("List", "ListList") and len(s) == 2:  # noqa: PLR2004
+        if s[0] == "List" and d[0] == "List":
             s, d = s[1], d[1]
-            continue
-        if s[0] == "Dict" and d[0] == "Dict" and s[1] == d[1]:
+        elif s[0] == "Dict" and d[0] == "Dict" and s[1] == d[1]:
             s, d = s[2], d[2]
-            continue
-        if (s[0] == "Model" and d[0] == "Model" and s[1].startswith("WrapS_") and d[1].startswith("WrapD_")):
+        elif s[0] == "Model" and d[0] == "Model" and s[1].startswith("WrapS_") and d[1].startswith("WrapD_"):
             s, d = _DYN_SPECS[s[1]].fields[0].type, _DYN_SPECS[d[1]].fields[0].type
-            continue
-        return s, d
+        elif R.is_optional(s) and R.is_optional(d):
+            s, d = R.not_none(s), R.not_none(d)
+        else:
+            return chain
+        chain.append((s, d))
 
 
 def bare_problem(s, d, has_default, recipe_ref):
@@ -376,12 +392,14 @@ def eval_pair(s, d, variant, report, ws="bare", wd="bare"):
         report.skip(f"UNSPEC: {ref.rule}")
         report.outcome(f"ref=unspec,impl={out[0]}")
 
-    bs, bd = blame(env, s, d)
-    nested = (bs, bd) != (s, d)
+    chain = blame_chain(s, d)
+    bs, bd = chain[-1]
 
     def sig_for(problem):
-        if nested and bare_problem(bs, bd, has_default, recipe_ref) == problem:
-            return {"check": "C14", "problem": problem, "coercer": pair_kind(bs, bd)}, (bs, bd)
+        """signature of the innermost position that shows the same problem on its own"""
+        for xs, xd in reversed(chain[1:]):
+            if bare_problem(xs, xd, has_default, recipe_ref) == problem:
+                return {"check": "C14", "problem": problem, "coercer": pair_kind(xs, xd)}, (xs, xd)
         return {"check": "C14", "problem": problem, "coercer": pair_kind(s, d)}, (s, d)
 
     if out[0] == "error":
@@ -394,7 +412,9 @@ def eval_pair(s, d, variant, report, ws="bare", wd="bare"):
                               f"by any rule of the tutorial", case)
     elif ref.verdict == YES and out[0] != "ok":
         sig, (xs, xd) = sig_for("refuses_coercible")
-        report.violation(sig, f"{text}: get_converter refused although coercible by rule '{ref.rule}': {out[1][:120]}", case)
+        rule = R.coercible(env, xs, xd).rule
+        report.violation(sig, f"{text}: get_converter refused although {R.show(xs)} is coercible to {R.show(xd)} by rule "
+                              f"'{rule}': {out[1][:100]}", case)
     if out[0] != "ok":
         return
     conv = out[1]
@@ -415,8 +435,8 @@ def eval_pair(s, d, variant, report, ws="bare", wd="bare"):
             report.outcome("run=conforms")
             continue
         report.outcome("run=does_not_conform")
-        # blame the innermost plain position for the signature
-        report.violation({"check": "C14", "problem": "wrong_runtime_type", "coercer": pair_kind(bs, bd)},
+        kind = sig_for("accepts_uncoercible")[0]["coercer"] if ref.verdict == NO else pair_kind(s, d)
+        report.violation({"check": "C14", "problem": "wrong_runtime_type", "coercer": kind},
                          f"{text}: source f={vshow(v)} placed {vshow(placed)} into a field of type {R.show(d)}",
                          {**case, "value": vshow(v)})
 
